@@ -4,6 +4,8 @@ use super::hung::{self, permutations};
 use crate::common::*;
 use serde_json::json;
 use similari::track::ObservationMetricOk;
+use similari::trackers::sort::voting::SortVoting;
+use similari::utils::bbox::Universal2DBox;
 use similari::trackers::sort::VotingType;
 use similari::trackers::visual_sort::observation_attributes::VisualObservationAttributes;
 use similari::trackers::visual_sort::voting::VisualVoting;
@@ -257,7 +259,7 @@ fn multisets(kinds: usize, size: usize, f: &mut dyn FnMut(&[usize])) {
 
 pub fn run(tier: Tier) -> Report {
     let rep = Report::new("C17", tier);
-    rep.set_rule("every multiset of <= K stream items over Q queries x T tracks x distances {.25,.5,1,2,None} (quick: 2x2, K=4; thorough: 3x3 K=4 and 2x2 K=6), plus streams in which queries and tracks share ONE id space {1,2,3} (every ordered pair q != t x distances {.25,.5,1}, K=4 quick / 5 thorough), plus streams of similarity-like distances {-.9,-.5,-.2,.25} (2x2, K=4 quick / 5 thorough; most of them hold negative distances only; also max_distance -.5 / -.3 / -.1), every permutation of streams of <= 4 items (rotations, reversal and adjacent transpositions of the canonical order for 5-6 items), N in {1,2,3}, min_votes in {1,2}, max_distance in {.5,.75,1,1.5,2,10} (three of them equal to a distance of the menu: 'not exceeding' is decided at equality); TopN and BestFit judged against the counting rules (also on streams with 1..40 tracks per query, N up to 10), results of tie-free streams required identical across orders; VisualVoting and Hungarian voting judged structurally (Hungarian: weights {absent, 0 (gated out, the query still appears), .2, .5, .9}; plus 2x2 matrices over weights 5 and 14 millionths apart in every arrival order); TopN / BestFit streams whose distances differ in the last bits of an f32 (weights 2e-7 apart) in every order. Non-trivial = at least two items.");
+    rep.set_rule("every multiset of <= K stream items over Q queries x T tracks x distances {.25,.5,1,2,None} (quick: 2x2, K=4; thorough: 3x3 K=4 and 2x2 K=6), plus streams in which queries and tracks share ONE id space {1,2,3} (every ordered pair q != t x distances {.25,.5,1}, K=4 quick / 5 thorough), plus streams of similarity-like distances {-.9,-.5,-.2,.25} (2x2, K=4 quick / 5 thorough; most of them hold negative distances only; also max_distance -.5 / -.3 / -.1), every permutation of streams of <= 4 items (rotations, reversal and adjacent transpositions of the canonical order for 5-6 items), N in {1,2,3}, min_votes in {1,2}, max_distance in {.5,.75,1,1.5,2,10} (three of them equal to a distance of the menu: 'not exceeding' is decided at equality); TopN and BestFit judged against the counting rules (also on streams with 1..40 tracks per query, N up to 10), results of tie-free streams required identical across orders; VisualVoting and Hungarian voting judged structurally (Hungarian: weights {absent, 0 (gated out, the query still appears), .2, .5, .9}; plus 2x2 matrices over weights 5 and 14 millionths apart in every arrival order); TopN / BestFit streams whose distances differ in the last bits of an f32 (weights 2e-7 apart) in every order; Hungarian: every 2x3 matrix over {absent,.2,.5,.9} on a thread where calls with a zero id in the stream have failed before. Non-trivial = at least two items.");
     let dmenu: Vec<Option<f32>> = vec![Some(0.25), Some(0.5), Some(1.0), Some(2.0), None];
     let params: Vec<(usize, usize, f32)> = {
         let mut p = vec![];
@@ -561,6 +563,56 @@ pub fn run(tier: Tier) -> Report {
                 }
             }
         });
+    }
+    // Hungarian, valid streams right after a call that failed on the same thread (a zero id in the stream makes the
+    // engine panic after it has already taken in the items before it; a caller that recovers - catch_unwind, the
+    // Python layer - goes on voting on the same thread with the same declared shape)
+    {
+        let prev_hook = std::panic::take_hook();
+        std::panic::set_hook(Box::new(|_| {}));
+        let menu: Vec<Option<f32>> = vec![None, Some(0.2), Some(0.5), Some(0.9)];
+        let (dc, dt) = (2usize, 3usize);
+        let mut failed = 0u64;
+        let mut judged = 0u64;
+        for fc in 0..dc {
+            for ft in 0..dt {
+                for code in 0..menu.len().pow((dc * dt) as u32) {
+                    // every 16th matrix follows a freshly failed call; the others follow successful calls, which must
+                    // not leave anything behind either
+                    if code % 16 == 0 {
+                        let r = std::panic::catch_unwind(|| {
+                            let v = SortVoting::new(0.3, dc, dt);
+                            let stream: Vec<ObservationMetricOk<Universal2DBox>> = vec![
+                                ObservationMetricOk::new(hung::CAND_BASE + fc as u64, hung::TRACK_BASE + ft as u64, Some(0.95), None),
+                                ObservationMetricOk::new(hung::CAND_BASE + (1 - fc) as u64, hung::TRACK_BASE + ((ft + 1) % dt) as u64, Some(0.9), None),
+                                ObservationMetricOk::new(hung::CAND_BASE + (1 - fc) as u64, 0, Some(0.5), None),
+                            ];
+                            v.winners(stream).len()
+                        });
+                        if r.is_err() {
+                            failed += 1;
+                        }
+                    }
+                    let mut k = code;
+                    let mut w = vec![vec![None; dt]; dc];
+                    for cell in 0..dc * dt {
+                        w[cell / dt][cell % dt] = menu[k % menu.len()];
+                        k /= menu.len();
+                    }
+                    let case = hung::Case { thr: 0.3, weights: w, declared_c: dc, declared_t: dt };
+                    let s = case.stream();
+                    evals.fetch_add(1, Ordering::Relaxed);
+                    judged += 1;
+                    let v = hung::judge(&case, &s);
+                    if !v.ok {
+                        rep.violation(Violation { key: format!("{}/after-a-failed-call", v.key), what: format!("on a thread where an earlier call (items candidate {fc} -> track {ft}, the other candidate -> the next track, then an item with a zero id) had failed: {}", v.what), replay: json!({"engine":"hungarian","family":"valid streams after a failed call","failed_call_first_item":[fc,ft,0.95],"weights":format!("{:?}", case.weights)}) });
+                        break;
+                    }
+                }
+            }
+        }
+        std::panic::set_hook(prev_hook);
+        rep.extra("hungarian_after_a_failed_call", json!({"calls_that_failed":failed,"streams_judged":judged}));
     }
     let e = evals.load(Ordering::Relaxed);
     rep.add(e, e, e, e);
